@@ -407,3 +407,76 @@ pub fn replay(args: &[String]) -> anyhow::Result<()> {
     println!("{}", json!({"kind":"summary","total":behaviours.len(),"failed":failed,"tool_errors":tool_errors,"mode":mode}));
     Ok(())
 }
+
+
+/// `record registry-many --per N`: "many instances per service" on the real NamingActor in real time (C13).  Three services
+/// with N silent ephemeral HTTP instances each (3 N is more than the actor expires in one sweep), five instances per service
+/// that keep heart-beating, one connection-owned and one persistent instance per service.  After the health time-out and a few
+/// sweeps, and again after the instance time-out and a few sweeps, the registry is counted; one observation per service and
+/// phase is printed - the requirements are ExpiryMany.tla's.
+pub fn many_instances(args: &[String]) -> anyhow::Result<()> {
+    let per = opt_u64(args, "--per", 4000) as usize;
+    const H_MS: i64 = 1500;
+    const T_MS: i64 = 4000;
+    let sys = actix_rt::System::new();
+    let r: anyhow::Result<()> = sys.block_on(async move {
+        let addr = NamingActor::new().start();
+        addr.send(hooks::NamingControl { health_timeout_ms: Some(H_MS), instance_timeout_ms: Some(T_MS), service_timeout_ms: Some(3_600_000), clear_empty_service: false }).await?;
+        let svcs = ["many-a", "many-b", "many-c"];
+        let mk = |s: &str, j: usize, kind: &str| -> Instance {
+            let new = match kind {
+                "grpc" => json!({"grpc": true, "cl": "conn-many", "eph": true}),
+                "persistent" => json!({"eph": false}),
+                _ => json!({"eph": true}),
+            };
+            let mut i = mk_instance(s, "a1", &new, 0);
+            i.ip = Arc::new(format!("10.{}.{}.{}", match kind { "silent" => 1, "beat" => 2, "grpc" => 3, _ => 4 }, j / 250, j % 250));
+            i.port = 8000;
+            i.generate_key();
+            i
+        };
+        let t0 = std::time::Instant::now();
+        for s in svcs {
+            for j in 0..per { addr.send(NamingCmd::Update(mk(s, j, "silent"), None)).await??; }
+            for j in 0..5 { addr.send(NamingCmd::Update(mk(s, j, "beat"), None)).await??; }
+            addr.send(NamingCmd::Update(mk(s, 0, "grpc"), None)).await??;
+            addr.send(NamingCmd::Update(mk(s, 0, "persistent"), None)).await??;
+        }
+        let registered_ms = t0.elapsed().as_millis() as i64;
+        let beat_tag = rnacos::naming::model::InstanceUpdateTag { weight: false, metadata: false, enabled: false, ephemeral: false, from_update: false };
+        // heart-beats every 300 ms until the end, sweeps as scheduled
+        let count = |d: &Value, s: &str| -> Value {
+            let mut c = std::collections::BTreeMap::new();
+            for k in ["silent", "silent_healthy", "beat", "beat_healthy", "grpc", "grpc_healthy", "persistent", "persistent_healthy"] { c.insert(k.to_string(), 0u64); }
+            for svc in d["services"].as_array().cloned().unwrap_or_default() {
+                if svc["service"] != json!(s) { continue; }
+                for i in svc["instances"].as_array().cloned().unwrap_or_default() {
+                    let ip = i["ip"].as_str().unwrap_or("");
+                    let kind = if ip.starts_with("10.1.") { "silent" } else if ip.starts_with("10.2.") { "beat" } else if ip.starts_with("10.3.") { "grpc" } else { "persistent" };
+                    *c.get_mut(kind).unwrap() += 1;
+                    if i["healthy"] == json!(true) { *c.get_mut(&format!("{}_healthy", kind)).unwrap() += 1; }
+                }
+            }
+            json!(c)
+        };
+        let mut sweeps = 0;
+        for (phase, at_ms) in [("after_health_timeout", registered_ms + H_MS + 600), ("after_instance_timeout", registered_ms + T_MS + 600)] {
+            while (t0.elapsed().as_millis() as i64) < at_ms {
+                for s in svcs { for j in 0..5 { addr.send(NamingCmd::Update(mk(s, j, "beat"), Some(beat_tag.clone()))).await??; } }
+                tokio::time::sleep(std::time::Duration::from_millis(300)).await;
+            }
+            for _ in 0..4 {
+                addr.send(NamingCmd::PeekListenerTimeout).await??;
+                sweeps += 1;
+            }
+            let d: Value = serde_json::from_str(&addr.send(hooks::DumpNaming).await?)?;
+            for s in svcs {
+                println!("{}", json!({"kind":"many","phase":phase,"service":s,"registered":per,"sweeps":sweeps,"at_ms":t0.elapsed().as_millis() as u64,
+                    "health_timeout_ms":H_MS,"instance_timeout_ms":T_MS,"registering_took_ms":registered_ms,"n":count(&d, s)}));
+            }
+        }
+        Ok(())
+    });
+    r?;
+    std::process::exit(0);
+}
